@@ -617,6 +617,7 @@ func registerHost(in *Interp) {
 		return nil
 	}
 	H["runtime.KeepAlive"] = nop
+	H["time.Sleep"] = nop // waiting changes nothing the stubs do not already leave open (kernel answers are arbitrary per call)
 	// typed atomics (atomic.Uint32, atomic.Bool, ...): the field named v of the receiver
 	vfield := func(in *Interp, recv Value) *Cell {
 		p, ok := recv.(Ptr)
